@@ -1,0 +1,46 @@
+//go:build verif
+
+package clustal
+
+// Property C19 (author C19b): the Clustal writer only reads the alignment it is given (see io/fasta for the scheme).
+// It calls SiteConservation (contract in align/zz_contracts_c19b_verif.go), hence the precondition wfa(al).
+
+//@ func WriteAlignment
+//@   props C19
+//@   requires al != nil && wfa(al)
+//@   modifies nothing
+//@   loop 1 in (*seqbag).IterateChar#1
+//@     invariant stop == false
+//@     decreases nrows(al) - $i
+//@   loop 1
+//@     invariant 0 <= cursize
+//@     decreases al.length - cursize
+//@   loop 1 in (*seqbag).IterateChar#2
+//@     invariant stop == false && 0 <= cursize && cursize < al.length && end <= al.length
+//@     decreases nrows(al) - $i
+//@   loop 2
+//@     invariant 0 <= cursize && cursize < al.length && end <= al.length
+//@     decreases maxnamelength + 3 - i
+//@   loop 3
+//@     invariant 0 <= cursize && cursize <= pos && cursize < al.length && end <= al.length
+//@     decreases end - pos
+
+// longest name
+//@ func WriteAlignment$1
+//@   props C19
+//@   inline
+//@   ensures result == false
+//@   modifies nothing
+
+// one line of residues per row
+//@ func WriteAlignment$2
+//@   props C19
+//@   inline
+//@   requires 0 <= cursize
+//@   ensures result == false && end <= len(seq)
+//@   modifies gf(buflen; buf), gfa(bufdata; buf)
+//@   loop 1
+//@     decreases maxnamelength + 3 - i
+//@   loop 2
+//@     invariant cursize <= j && 0 <= cursize && end <= len(seq)
+//@     decreases end - j
